@@ -3,7 +3,7 @@
    the four codes) and Proofs/Address.v (lifting to address strings). *)
 From Coq Require Import List NArith Bool Lia.
 From Coq.Strings Require Import Byte.
-From EV Require Import Base.Bytes Gen.Tables Model.Bech32 Model.Base58 Model.Address Proofs.Bech32 Proofs.Bech32Codes Proofs.Address Proofs.AddressB58 Proofs.AddressCase.
+From EV Require Import Base.Bytes Gen.Tables Model.Bech32 Model.Base58 Model.Address Proofs.Bech32 Proofs.Bech32Codes Proofs.Address Proofs.AddressB58 Proofs.AddressCase Proofs.AddressHrp.
 Import ListNotations.
 Open Scope N_scope.
 
@@ -87,16 +87,45 @@ Theorem C17_hrp_case : forall (H : bytes -> bytes) (pk_valid : bytes -> bool) h 
   (forall a, parse_with_params H pk_valid (h ++ x31 :: d) p = AOk a -> ~ is_segwit a) /\ (forall a, from_str H pk_valid (h ++ x31 :: d) = AOk a -> ~ is_segwit a).
 Proof. exact hrp_case_rejected. Qed.
 
-(* REMAINING PART OF THE HRP CLAUSE, NOT PROVED (declared partial in DESIGN.md) — replacements by characters other than the other-case form:
-     forall s s', s parses as a segwit address -> s' = s with one or two characters of the human-readable part replaced ->
-       forall p' in builtin, parse_with_params s' p' fails /\ from_str s' fails.
-   What holds and why it is not a theorem here: a changed HRP either matches no built-in HRP (then the string takes the base58check
-   path: rejection rests on a 32-bit SHA-256d checksum, cf. C17_address_other_network_partial), or it matches the HRP of another
-   (network, blinded) class.  Within one checksum family the only built-in pair reachable by <= 2 replacements is "lq" <-> "el",
-   whose HRP expansions differ in exactly two symbols, so C17_two_errors rejects it; across families (ex<->el, ex<->lq, tex<->tlq)
-   the word is checked against a different code (6 vs 12 checksum symbols), where acceptance would need a 30-/60-bit accident.
-   The harness evaluates the clause on the implementation: sampled (tag hrp-char) and completely for one address of each (network, blinded)
-   class — every replacement of one and of every two HRP characters by the other 65 characters of the alphabet (kind `C17 r`, tag hrp-enum). *)
+(* HRP clause, replacements other than a change of letter case.  hrp_edit s s': s' is s with the human-readable part (everything before
+   the last '1') replaced by an equally long string that is not a re-casing of it — any number of characters, the separator included.
+   If s parses as a segwit address under a built-in network then s' is rejected by FromStr and by parse_with_params under EVERY built-in
+   network, except in two residual situations that are stated explicitly because no proof over an abstract hash / over two unrelated
+   generator polynomials can exclude them:
+     hrp_residual_base58 H pk_valid s' — the new prefix matches no built-in HRP (then every parser takes the base58check branch) AND every
+       character of s', the segwit data and checksum characters included, is a base58 character AND s' base58check-decodes (4-byte checksum
+       of the hash H) to a payload that from_base58 accepts for a built-in network.  Impossible as soon as the data part contains a `0` or
+       an `l` (upper-case form: a `0`), the bech32 characters outside the base58 alphabet: all but about (30/32)^n of the addresses;
+     hrp_residual_cross pk_valid a s' — the new prefix is the HRP of the OTHER checksum family of a built-in network (ex <-> lq, el;
+       tex <-> tlq) AND the unchanged symbols are also a valid address there (a bech32(m) codeword behind the old HRP and a blech32(m)
+       codeword, 12 instead of 6 checksum symbols, behind the new one, or the reverse); the length rules of the two decoders leave only an
+       unblinded 40-byte program re-read as blinding key + 3-byte program, or the reverse.
+   Everything else is proved: a new prefix that is a built-in HRP of the SAME family (ert <-> tex, lq <-> el) is rejected for every data
+   part (C17_hrp_swap: kernel sweep — for each of the four codes and each of the 12 ordered pairs of different built-in HRPs of equal
+   length, the difference D of the residues after the two HRP expansions satisfies Z^n(D) <> 0 for all n <= 1023, and every accepted
+   string has at most 400 data symbols); other networks never read s' as base58check when its prefix is a built-in HRP (C06's
+   first-character sweep). *)
+Theorem C17_hrp : forall (H : bytes -> bytes) (pk_valid : bytes -> bool) p s a s',
+  In p builtin -> parse_with_params H pk_valid s p = AOk a -> is_segwit a -> hrp_edit s s' ->
+  ((exists e, from_str H pk_valid s' = AErr e) /\ forall p', In p' builtin -> exists e, parse_with_params H pk_valid s' p' = AErr e)
+  \/ hrp_residual_base58 H pk_valid s' \/ hrp_residual_cross pk_valid a s'.
+Proof. exact hrp_replaced. Qed.
+(* no residual when the string has a character outside the base58 alphabet and the program is not 3 or 40 bytes long (every standard
+   address: 20- and 32-byte programs whose text contains a `0` or an `l`) *)
+Theorem C17_hrp_common : forall (H : bytes -> bytes) (pk_valid : bytes -> bool) p s a s',
+  In p builtin -> parse_with_params H pk_valid s p = AOk a -> is_segwit a -> hrp_edit s s' ->
+  (exists c, In c s' /\ b58_digit c = None) -> prog_len a <> 40%nat -> prog_len a <> 3%nat ->
+  (exists e, from_str H pk_valid s' = AErr e) /\ forall p', In p' builtin -> exists e, parse_with_params H pk_valid s' p' = AErr e.
+Proof. exact hrp_replaced_common. Qed.
+(* the sweep behind the same-family case, as a statement about codewords: the same symbols (<= 1023) are never a codeword behind two
+   different built-in HRPs of equal length — each of the four codes *)
+Theorem C17_hrp_swap : forall c h1 h2 w, In c [bech32; bech32m; blech32; blech32m] -> In (h1, h2) hrp_pairs -> sym_word w -> (length w <= 1023)%nat ->
+  valid_codeword c (hrp_expand h1 ++ w) = true -> valid_codeword c (hrp_expand h2 ++ w) = false.
+Proof. exact hrp_swap_invalid. Qed.
+(* the pairs swept: all ordered pairs of different built-in HRPs of equal length *)
+Example C17_hrp_pairs : hrp_pairs =
+  [(("ex"%lb : bytes), ("lq"%lb : bytes)); (("ex"%lb : bytes), ("el"%lb : bytes)); (("lq"%lb : bytes), ("ex"%lb : bytes)); (("lq"%lb : bytes), ("el"%lb : bytes)); (("ert"%lb : bytes), ("tex"%lb : bytes)); (("ert"%lb : bytes), ("tlq"%lb : bytes)); (("el"%lb : bytes), ("ex"%lb : bytes)); (("el"%lb : bytes), ("lq"%lb : bytes)); (("tex"%lb : bytes), ("ert"%lb : bytes)); (("tex"%lb : bytes), ("tlq"%lb : bytes)); (("tlq"%lb : bytes), ("ert"%lb : bytes)); (("tlq"%lb : bytes), ("tex"%lb : bytes))].
+Proof. vm_compute. reflexivity. Qed.
 
 (* non-vacuity: a real address, a one-symbol corruption of it, and the hypotheses of C17_address hold for them *)
 Example C17_nonvacuous :
@@ -117,6 +146,18 @@ Example C17_nonvacuous_mixed_case :
 Proof. cbv zeta. split; [vm_compute; reflexivity|]. split; [vm_compute; reflexivity|]. split.
   - eexists. split; [vm_compute; reflexivity|]. eexists _, _. reflexivity.
   - eexists. vm_compute. reflexivity. Qed.
+(* non-vacuity of C17_hrp: `ert` replaced by `tex` (three characters, same family) and by `zzz` (no built-in HRP) on a real address *)
+Example C17_nonvacuous_hrp :
+  let s := "ert1qwhh2n5qypypm0eufahm2pvj8raj9zq5c27cysu"%lb in
+  (exists a, parse_with_params (fun _ => []) (fun _ => true) s ELEMENTS = AOk a /\ is_segwit a) /\ In ELEMENTS builtin /\
+  hrp_edit s "tex1qwhh2n5qypypm0eufahm2pvj8raj9zq5c27cysu"%lb /\ hrp_edit s "zzz1qwhh2n5qypypm0eufahm2pvj8raj9zq5c27cysu"%lb /\
+  (exists c, In c "zzz1qwhh2n5qypypm0eufahm2pvj8raj9zq5c27cysu"%lb /\ b58_digit c = None).
+Proof. cbv zeta. split; [|split; [|split; [|split]]].
+  - eexists. split; [vm_compute; reflexivity|]. eexists _, _. reflexivity.
+  - cbn. tauto.
+  - exists ("ert"%lb : bytes), ("tex"%lb : bytes), ("qwhh2n5qypypm0eufahm2pvj8raj9zq5c27cysu"%lb : bytes). split; [vm_compute; reflexivity|]. split; [reflexivity|]. split; reflexivity.
+  - exists ("ert"%lb : bytes), ("zzz"%lb : bytes), ("qwhh2n5qypypm0eufahm2pvj8raj9zq5c27cysu"%lb : bytes). split; [vm_compute; reflexivity|]. split; [reflexivity|]. split; reflexivity.
+  - exists x30. split; [cbn; tauto|reflexivity]. Qed.
 Example C17_nonvacuous_codeword : exists w, sym_word w /\ (length w <= 1023)%nat /\ valid_codeword blech32m w = true.
 Proof. exists (hrp_expand "lq"%lb ++ [1; 2; 3] ++ checksum_syms blech32m (hrp_expand "lq"%lb ++ [1; 2; 3])). split; [|split].
   - vm_compute. repeat constructor. - vm_compute. lia. - vm_compute. reflexivity. Qed.
@@ -130,6 +171,10 @@ Check (C17_switch : forall c0 cm L, (c0, cm, L) = (bech32, bech32m, 175%nat) \/ 
 Check (C17_address : forall (H : bytes -> bytes) (pk_valid : bytes -> bool) p s a s',
   In p builtin -> parse_with_params H pk_valid s p = AOk a -> is_segwit a -> data_edit s s' ->
   (exists e, from_str H pk_valid s' = AErr e) /\ (exists e, parse_with_params H pk_valid s' p = AErr e)).
+Check (C17_hrp : forall (H : bytes -> bytes) (pk_valid : bytes -> bool) p s a s',
+  In p builtin -> parse_with_params H pk_valid s p = AOk a -> is_segwit a -> hrp_edit s s' ->
+  ((exists e, from_str H pk_valid s' = AErr e) /\ forall p', In p' builtin -> exists e, parse_with_params H pk_valid s' p' = AErr e)
+  \/ hrp_residual_base58 H pk_valid s' \/ hrp_residual_cross pk_valid a s').
 Print Assumptions C17_linear.
 Print Assumptions C17_syndrome.
 Print Assumptions C17_table.
@@ -143,3 +188,6 @@ Print Assumptions C17_from_str_is_builtin.
 Print Assumptions C17_mixed_case.
 Print Assumptions C17_mixed_case_address.
 Print Assumptions C17_hrp_case.
+Print Assumptions C17_hrp.
+Print Assumptions C17_hrp_common.
+Print Assumptions C17_hrp_swap.
